@@ -769,7 +769,14 @@ fn exception_with_backlog(r: &mut Rng, res: &mut CaseResult) {
 /// A delivery whose headers table nests field arrays `depth` levels deep: syntactically
 /// valid, a few bytes per level, well within frame_max, and something any publisher can
 /// send through a broker. It must arrive or be refused, not take the process down.
+/// Where the deeply nested table is put: 0 = headers of a delivery, 1 = the same with bit 0
+/// of the property flags set (which readers ignore), 2 = the arguments of a Queue.Declare
+/// sent by the server (a method only a client may send: client exception 530).
 fn nested_headers(depth: usize, short_int_first: bool, res: &mut CaseResult) {
+    nested_table(depth, short_int_first, 0, res)
+}
+
+fn nested_table(depth: usize, short_int_first: bool, place: u8, res: &mut CaseResult) {
     let (conn, h) = session::open_default(Reflex::default());
     let mut conn = match conn {
         Ok(c) => c,
@@ -812,11 +819,21 @@ fn nested_headers(depth: usize, short_int_first: bool, res: &mut CaseResult) {
     hp.extend_from_slice(&60u16.to_be_bytes());
     hp.extend_from_slice(&0u16.to_be_bytes());
     hp.extend_from_slice(&0u64.to_be_bytes());
-    hp.extend_from_slice(&0x2000u16.to_be_bytes());
+    hp.extend_from_slice(&(if place == 1 { 0x2001u16 } else { 0x2000u16 }).to_be_bytes());
     hp.extend_from_slice(&(table.len() as u32).to_be_bytes());
     hp.extend_from_slice(&table);
-    let mut bytes = enc_method(id, AMQPClass::Basic(B::Deliver(basic::Deliver { consumer_tag: cons.consumer_tag().to_string(), delivery_tag: 1, redelivered: false, exchange: "x".into(), routing_key: "k".into() })));
-    bytes.extend(enc_raw(wire::T_HEADER, id, &hp));
+    let mut bytes = if place == 2 {
+        // Queue.Declare: class 50, method 10, ticket, queue name, flag octet, arguments
+        let mut mp: Vec<u8> = vec![0, 50, 0, 10, 0, 0, 1, b'q', 0];
+        mp.extend_from_slice(&(table.len() as u32).to_be_bytes());
+        mp.extend_from_slice(&table);
+        enc_raw(wire::T_METHOD, id, &mp)
+    } else {
+        let mut b = enc_method(id, AMQPClass::Basic(B::Deliver(basic::Deliver { consumer_tag: cons.consumer_tag().to_string(), delivery_tag: 1, redelivered: false, exchange: "x".into(), routing_key: "k".into() })));
+        b.extend(enc_raw(wire::T_HEADER, id, &hp));
+        b
+    };
+    let _ = &mut bytes;
     res.obs("frames_injected", 2);
     res.obs("nested_header_frame_bytes", hp.len() as u64 + 8);
     h.inject(bytes);
@@ -844,14 +861,18 @@ fn nested_headers(depth: usize, short_int_first: bool, res: &mut CaseResult) {
 
 pub fn run(rc: &mut RunCtx) {
     let seed = rc.seed;
-    for (depth, short_int_first) in [(30usize, false), (400, false), (3000, false), (20000, false), (30, true), (20000, true)] {
-        let id = format!("nested-headers:{}{}", depth, if short_int_first { ":behind-short-int" } else { "" });
+    for (depth, short_int_first, place) in [(30usize, false, 0u8), (400, false, 0), (3000, false, 0), (20000, false, 0), (30, true, 0), (20000, true, 0), (20000, false, 1), (8, false, 2), (20000, false, 2)] {
+        let id = format!("nested-headers:{}{}{}", depth, if short_int_first { ":behind-short-int" } else { "" }, ["", ":flags-bit0", ":in-client-only-method"][place as usize]);
         if !rc.mine(&id) {
             continue;
         }
         rc.begin(&id);
         let mut res = CaseResult::new(id);
-        nested_headers(depth, short_int_first, &mut res);
+        if place == 0 {
+            nested_headers(depth, short_int_first, &mut res);
+        } else {
+            nested_table(depth, short_int_first, place, &mut res);
+        }
         rc.end(res);
     }
     for i in 0..rc.n(48, 1500) {
